@@ -58,6 +58,7 @@ type k8sAdapter struct {
 	vers    map[string]string
 	uids    map[string]string // uid -> src
 	nUID    int
+	nDel    int
 	pending []k8sEvent
 	run     *verifc18.Run
 }
@@ -79,6 +80,7 @@ func (a *k8sAdapter) Reset(run *verifc18.Run, rec *verifc18.Recorder, _ []string
 	a.run = run
 	a.objs, a.vers, a.uids = map[string]*v1alpha4.RuleSet{}, map[string]string{}, map[string]string{}
 	a.pending = nil
+	a.nDel = 0
 	a.p = &provider{p: rec, l: zerolog.Nop(), cl: fakeClient{}, ac: DefaultClass, id: "verif", configured: true}
 	// the wiring of newController
 	a.h = cache.FilteringResourceEventHandler{
@@ -185,7 +187,15 @@ func (a *k8sAdapter) deliver(run *verifc18.Run, e k8sEvent, mode string) {
 		case "update":
 			a.h.OnUpdate(e.old, e.obj)
 		case "delete":
-			a.h.OnDelete(e.obj)
+			// every second deletion arrives the way the informer reports one it only learned about
+			// from a re-list: wrapped into a tombstone
+			// (which ones: a function of the scenario, so that a re-execution does the same)
+			a.nDel++
+			if (a.nDel+len(a.run.Salt))%2 == 0 {
+				a.h.OnDelete(cache.DeletedFinalStateUnknown{Key: e.obj.Namespace + "/" + e.obj.Name, Obj: e.obj})
+			} else {
+				a.h.OnDelete(e.obj)
+			}
 		}
 	})
 }
